@@ -95,7 +95,15 @@ impl Xot {
             return Ok(());
         }
         self.remove_consolidate_text_nodes(self.previous_sibling(child), self.next_sibling(child));
-        if self.add_consolidate_text_nodes(child, self.last_child(parent), None) {
+        // the consolidation above may have removed what followed the child, so
+        // that the last child is now the child itself: its new neighbour is
+        // then its own previous sibling (a text node must not be merged into
+        // itself)
+        let mut last = self.last_child(parent);
+        if last == Some(child) {
+            last = self.previous_sibling(child);
+        }
+        if self.add_consolidate_text_nodes(child, last, None) {
             return Ok(());
         }
         parent.get().checked_append(child.get(), self.arena_mut())?;
@@ -419,11 +427,14 @@ impl Xot {
             self.previous_sibling(new_sibling),
             self.next_sibling(new_sibling),
         );
-        if self.add_consolidate_text_nodes(
-            new_sibling,
-            self.previous_sibling(reference_node),
-            Some(reference_node),
-        ) {
+        // the consolidation above may have brought the new sibling right in
+        // front of the reference node: its new previous neighbour is then its
+        // own previous sibling (a text node must not be merged into itself)
+        let mut previous = self.previous_sibling(reference_node);
+        if previous == Some(new_sibling) {
+            previous = self.previous_sibling(new_sibling);
+        }
+        if self.add_consolidate_text_nodes(new_sibling, previous, Some(reference_node)) {
             return Ok(());
         }
         reference_node
